@@ -1,7 +1,7 @@
 (* Proofs/GenAgreeC04Conv.v — property C04, translator tie (extractor c04conv, Gen/C04Conv.v):
 
    * schema/stream.go streamReaderWithConvert.recv, translated statement by statement, read to
-     io.EOF is the item-wise [s_convert] of Model/StreamGenLib.v: chunks are converted, chunks
+     io.EOF is the item-wise [s_convert] of Model/C04GenLib.v: chunks are converted, chunks
      whose conversion answers ErrNoValue vanish, a conversion error becomes an error item,
      error items of the source pass, nothing is lost and nothing comes after io.EOF;
    * the convert functions that compose/stream_reader.go and compose/generic_helper.go hand to
@@ -12,7 +12,7 @@
        defaultStreamConverter   -> s_check            (run-time type check, stream form)
        defaultValueChecker      -> v_check            (run-time type check, value form)
        toAnyStreamReader        -> the identity. *)
-From Eino Require Import Base.Util Model.Paradigm Model.StreamOps Model.StreamGenLib.
+From Eino Require Import Base.Util Model.Paradigm Model.StreamOps Model.C04GenLib.
 From Eino Require Gen.C04Conv.
 
 Section Recv.
